@@ -438,6 +438,17 @@ func (m *Monitors) AtFixpoint(ns, name, live string, res ConvergeResult) {
 		ctx.Count("C07.rollback-fixpoints-judged")
 		if kit.MarkerOfTemplate(&e.Spec.Template) != live {
 			m.viol("C07", "C07.nodes-restored", merge(attrs, "cause", "spec-not-restored"), nil, d)
+			byCmd := res.Resolution == "kubectl-fail"
+			for k := range m.failedByCmd {
+				if strings.HasPrefix(k, ns+"/"+name+"-") {
+					byCmd = true // an earlier `canary fail` of this history acted on one of its replica sets
+				}
+			}
+			if byCmd {
+				// "fail leads to the rollback": the command acted and cooperative reconciliation has gone quiet,
+				// yet spec.template is still the failed one
+				m.viol("C19", "C19.fail-leads-to-rollback", merge(attrs, "cause", "spec-not-restored-at-fixpoint"), nil, d)
+			}
 		}
 	}
 }
